@@ -211,10 +211,14 @@ theorem pinyin_fits : maxPinyinLen < capOf "bopomofo_buf" := by decide
 
 /-! ## 3. Inventory of the unsafe surface (a new exported function / unsafe block / iterator site breaks these) -/
 
+/- reviewed at the integration of C01's F06 fix (`fix: chewing_userphrase_get truncates …`): the two in-line
+   `slice::from_raw_parts_mut(buf, size)` + unchecked copies of `chewing_userphrase_get` became two calls of the new
+   helper `copy_cstr_to_caller(buf, cap, src)`, which writes `min(src.len(), cap-1) + 1 ≤ cap` bytes and nothing for
+   `cap = 0` (one `unsafe` block more, one helper more; exported functions unchanged). -/
 set_option maxRecDepth 10000 in
 theorem inventory :
-    exportedFns.length = 126 ∧ unsafeBlocksTotal = 64 ∧
-    helperUnsafeFns = ["slice_from_ptr_with_nul", "str_from_ptr_with_nul"] ∧
+    exportedFns.length = 126 ∧ unsafeBlocksTotal = 65 ∧
+    helperUnsafeFns = ["slice_from_ptr_with_nul", "copy_cstr_to_caller", "str_from_ptr_with_nul"] ∧
     ownedKinds = ["CString", "CUShortSlice"] ∧
     iterFields = ["kbcompat_iter", "cand_iter", "interval_iter", "userphrase_iter"] := by decide
 
@@ -226,15 +230,16 @@ theorem heap_getters_reviewed :
       ("chewing_cand_String", 0), ("chewing_cand_string_by_index", 0), ("chewing_aux_String", 0),
       ("chewing_kbtype_String", 0), ("chewing_zuin_String", 0)] := by decide
 
-/-- each stored iterator is touched by exactly its enumerate / hasNext / get functions -/
+/-- each stored iterator is touched by exactly its enumerate / hasNext / get functions, and by `chewing_Reset`,
+    which drops all four (C17 fix "chewing_Reset drops the pending enumeration iterators"; model op `.reset`) -/
 theorem iter_sites_reviewed :
     iterSites =
-      [("kbcompat_iter", ["chewing_kbtype_Enumerate", "chewing_kbtype_hasNext", "chewing_kbtype_String",
+      [("kbcompat_iter", ["chewing_Reset", "chewing_kbtype_Enumerate", "chewing_kbtype_hasNext", "chewing_kbtype_String",
                           "chewing_kbtype_String_static"]),
-       ("cand_iter", ["chewing_cand_Enumerate", "chewing_cand_hasNext", "chewing_cand_String",
+       ("cand_iter", ["chewing_Reset", "chewing_cand_Enumerate", "chewing_cand_hasNext", "chewing_cand_String",
                       "chewing_cand_String_static"]),
-       ("interval_iter", ["chewing_interval_Enumerate", "chewing_interval_hasNext", "chewing_interval_Get"]),
-       ("userphrase_iter", ["chewing_userphrase_enumerate", "chewing_userphrase_has_next",
+       ("interval_iter", ["chewing_Reset", "chewing_interval_Enumerate", "chewing_interval_hasNext", "chewing_interval_Get"]),
+       ("userphrase_iter", ["chewing_Reset", "chewing_userphrase_enumerate", "chewing_userphrase_has_next",
                             "chewing_userphrase_get"])] := by decide
 
 /-- functions classified as possibly mutating the user dictionary take the context mutably, and none of the
